@@ -129,8 +129,12 @@ def main(tier):
         run.proof_ok = False
         run.proof_notes.append('harness verifapi does not build against this tree: ' + b['verifapi'][1][-600:])
         return run.finish()
-    n = 90 if tier == 'quick' else 1500
-    nbin = 25 if tier == 'quick' else 200
+    eval_part(run, tier, b, 90 if tier == 'quick' else 1500, 25 if tier == 'quick' else 200, anp_always=False)
+    return run.finish()
+
+
+def eval_part(run, tier, b, n, nbin, anp_always):
+    """the eval correspondence (CheckIfAllowed vs the rule-walker mirror, vs the real list, vs the binary) on n worlds, reported in `run`"""
     h = listcorr.Harness()
     total_q = 0
     try:
@@ -140,7 +144,7 @@ def main(tier):
             for i in range(min(shard, n - k)):
                 cid = k + i
                 cli = (cid % 2 == 1)
-                W = gen.gen_world(run.rng, anp=(cid % 3 != 0), pods=True)
+                W = gen.gen_world(run.rng, anp=(anp_always or cid % 3 != 0), pods=True)
                 for w in W['workloads']:
                     if run.rng.random() < (0.8 if cli else 0.4):
                         w['kind'] = 'Pod'
@@ -260,7 +264,8 @@ def main(tier):
         run.sample({'queries_per_world': total_q // max(1, run.cov['evaluations'])})
     finally:
         h.close()
-    return run.finish()
+
+
 
 
 def replay(payload):
